@@ -352,7 +352,16 @@ func replay(id string, ck *Check, path string) int {
 		f.Replay = wrap.Case
 	}
 	c := &Ctx{ID: id, Tier: "quick", Quick: true, Seed: seed(), N: 1, R: evid.NewResult()}
-	ck.Replay(c, f.Replay)
+	// a recorded schedule of the controlled-scheduler engine (whatever property it belongs to) is replayed by that engine
+	var sj struct {
+		Job     string `json:"job"`
+		Choices []int  `json:"choices"`
+	}
+	if json.Unmarshal(f.Replay, &sj) == nil && sj.Job != "" {
+		schedReplayHook(c, f.Replay)
+	} else {
+		ck.Replay(c, f.Replay)
+	}
 	for _, v := range c.R.Violations {
 		fmt.Printf("VIOLATION property=%s replay=%s\n  key=%s\n  %s\n", id, path, v.Key, v.What)
 	}
